@@ -19,6 +19,12 @@ CHECKS = {
     text="MC_Bounds proves Within(Clamp(c)), idempotence and identity-on-in-bounds exhaustively on a lattice for every component kind and for the HWB coupling in exact rational arithmetic. Every real API result on lattices that put each component independently far below / just below / inside / just above / far above its range (19 colour types, f32 and f64, plain and Alpha, slices; 18 conversion pairs through the unclamped, clamping and checked APIs) is judged by TLC against the model, bit-exactly wherever the contract is a selection and with a one-rounding allowance where it divides or adds; the min/max accessors are compared with the documented table.",
     ref="DESIGN.md section 4 C03",
     note=TRUST + "; documented bounds table in spec/Types.tla (Lch::max_chroma documented as advisory, Okhsv's documented 1e-6 slack); Alpha<C,T>::is_within_bounds cannot be instantiated for float T on the pinned tree (its where-clause asks T: IsWithinBounds), so the Alpha within-flag is composed from the colour's flag and the alpha range"),
+ "C07": dict(
+    technique="invariant `every call on a colour of the statement's domain returns finite components and does not panic` judged by TLC trace validation (TraceFinite.tla decides domain membership from the documented bounds in Types.tla with exact arithmetic) over the boundary lattice x API surface",
+    category="model_checking",
+    text="Every ordered conversion pair of 19 typed nodes (f32 and f64, with and without alpha) and the clamp family are run on the boundary lattice of each space: every component at min, max, zero, a billionth of the range inside either bound and at quarter points, hues at every sector edge and at +-180/360. TLC decides from the documented bounds whether the recorded input is in the statement's domain (on a bound, zero, or at least 1e-9 of the range away) and then requires a finite, panic-free result.",
+    ref="DESIGN.md section 4 C07",
+    note=TRUST + "; documented bounds table in spec/Types.tla; operators, blends, differences and CAM16 are added to this check's surface as their drivers are built (see coverage.explanation of the evidence for what a run covered)"),
  "C13": dict(
     technique="TLA+ guard stack machine over symbolic conversion terms (InPlace.tla); TLC enumerates all guard programs, replayed on real buffers; TLC trace validation (in-place arrays bit-identical to the term evaluated out of place)",
     category="model_checking",
